@@ -531,6 +531,9 @@ func runScenarios(c *engine.Ctx, al []call, scenarios []scenario, bound int) {
 			schedules = sched.Explore(bound, newBodies, func(x *sched.Exec) bool {
 				t.Alive()
 				t.Transitions(len(x.Points))
+				if x.Foreign {
+					t.Cap("the code under test starts goroutines of its own: their interleavings are not enumerated (only those of the scenario's threads)")
+				}
 				if x.Diverged != "" {
 					viol = engine.Violate("harness", "", "%s", x.Diverged)
 					return false
